@@ -275,7 +275,7 @@ def probe_open(image, how, lazy, scratch):
                 except TTLibError:
                     continue
                 except MemoryError:
-                    return "memory-limit", ""
+                    continue  # harness memory limit; without it this read comes back short and raises TTLibError
                 except Exception as e:  # noqa
                     return "OTHER-READ", "%s reading %r: %s" % (type(e).__name__, tag, str(e)[:100])
                 if len(d) != want:
